@@ -245,7 +245,7 @@ def call(asm, prog, compress, mode, state):
         else:
             res = 'ok %s L %s K %s' % (out.hex() or '-', dshow(labels), dshow(constants))
     except asm.AssemblerError as e:
-        res = 'err asm %s %d' % (common.hexs(e.line.file), e.line.number)
+        res = 'err asm %s %d' % (common.hexs(str(getattr(e.line, 'file', None))), getattr(e.line, 'number', None) or 0)
     except RecursionError:
         res = 'internal RecursionError'
     except Exception as e:
